@@ -199,7 +199,9 @@ def get_flags_contract():
 
         def variant(ip, fr):
             return mk_int(ip.st.rope_len_term(fr.locals['data']) - I(fr.locals['bytes_consumed']))
-        return CutWhile(2, havoc, inv, variant, doc='each iteration consumes one further flag word')
+        ann = CutWhile(2, havoc, inv, variant, doc='each iteration consumes one further flag word')
+        ann.binds = ('flagword_index', 'bytes_consumed', 'flags', 'data')
+        return ann
 
     return Contract(GF, [('data', T.bytes)], cases=[
         Case('one-flag-word', when=one, post=post_one, havoc=havoc_one),
